@@ -210,6 +210,9 @@ type Runner struct {
 	OnClosed      func(r *Runner) *Fail // called between Close and Open of a reopen (C13)
 	OnKilled      func(r *Runner)       // called between the death of the process and the restart of a kill op (C13)
 	staleBatch    *kv.Batch             // a committed batch whose handle the "caller" kept
+	// NoHuge: no value of more than a mebibyte is generated (the crash engine keeps the bytes of every file at every
+	// frozen instant in memory: a 2 MiB record times hundreds of instants would look like an unbounded allocation)
+	NoHuge bool
 	prefixDstUsed bool
 	foldMutates   bool
 	spelling      int                   // how the directory is spelled in every Open of this history (Opt.Spelling of the first configuration)
